@@ -118,6 +118,8 @@ pub enum TOp {
     StashStyle,
     /// set_style with the copy taken earlier (it was taken at whatever tab width the bar had then)
     SetStashedStyle,
+    /// println("log"): the bar lines repainted below the log line are bar lines like any other
+    Println,
 }
 
 #[derive(Debug, Clone, Serialize, Deserialize)]
@@ -163,6 +165,7 @@ fn op_strategy() -> BoxedStrategy<TOp> {
         1 => Just(TOp::FinishUsingStyle),
         1 => any::<bool>().prop_map(TOp::SetExpandedCopy),
         1 => Just(TOp::StashStyle),
+        2 => Just(TOp::Println),
         1 => Just(TOp::SetStashedStyle),
     ]
     .boxed()
@@ -203,7 +206,7 @@ fn decode_tabs(u: &mut FuzzInput) -> TabCase {
             13 => if u.bool() { TOp::Reset } else { TOp::Tick },
             14 => TOp::WithFinishMessage(text(u), u.bool()),
             15 => TOp::FinishUsingStyle,
-            16 => TOp::StashStyle,
+            16 => if u.bool() { TOp::StashStyle } else { TOp::Println },
             17 if u.bool() => TOp::SetExpandedCopy(u.bool()),
             _ => TOp::SetStashedStyle,
         });
@@ -259,6 +262,7 @@ fn run_tabs(c: &TabCase) -> CaseResult {
                 v.label("configured_while_hidden_then_shown");
             }
         }
+        let under_println: std::cell::RefCell<Option<Result<Vec<String>, String>>> = std::cell::RefCell::new(None);
         let r = catch(|| -> Option<ProgressBar> {
             Some(match op {
                 TOp::SetTabWidth(w) => {
@@ -331,6 +335,15 @@ fn run_tabs(c: &TabCase) -> CaseResult {
                     *stash.borrow_mut() = Some((cur.style(), tmpl));
                     cur
                 }
+                TOp::Println => {
+                    // (only while the bar is visible: what becomes of a line printed through a hidden target is
+                    // not this property's business)
+                    if visible {
+                        cur.println("log");
+                        *under_println.borrow_mut() = Some(vt.last_frame_lines());
+                    }
+                    cur
+                }
                 TOp::SetStashedStyle => {
                     if let Some((st, _)) = stash.borrow().as_ref() {
                         cur.set_style(st.clone());
@@ -378,7 +391,7 @@ fn run_tabs(c: &TabCase) -> CaseResult {
                     tab_text_at.get_or_insert(i);
                 }
             }
-            TOp::Reset | TOp::Tick | TOp::StashStyle => {}
+            TOp::Reset | TOp::Tick | TOp::StashStyle | TOp::Println => {}
             TOp::SetExpandedCopy(is_prefix) => {
                 if *is_prefix {
                     prefix = model::expand_tabs(&prefix, tw);
@@ -408,6 +421,14 @@ fn run_tabs(c: &TabCase) -> CaseResult {
             }
         }
         pb = r;
+        if let (true, Some(got)) = (visible, under_println.borrow_mut().take()) {
+            // the frame painted by println itself: the log line, then the bar lines
+            let got = got.map_err(|e| Fail::new("harness", e))?;
+            let mut want = vec!["log".to_string()];
+            want.extend(expected_lines(TEMPLATES[tmpl as usize % TEMPLATES.len()], &msg, &prefix, tw));
+            ensure!(got == want, "frame", "op #{i} println (tab width {tw}, template {:?}): the frame painted by println is {got:?}, expected {want:?}; ops {:?}", template_string(TEMPLATES[tmpl as usize % TEMPLATES.len()]), &c.ops[..=i]);
+            v.label("bar_lines_repainted_by_println");
+        }
         let segs = TEMPLATES[tmpl as usize % TEMPLATES.len()];
         if let Some(p) = &pb {
             // getters return the expanded text
@@ -455,12 +476,12 @@ pub fn property() -> Property {
         ],
         parts: vec![Box::new(Gen::<TabCase> {
             name: "history",
-            rule: "0-14 (thorough 30) ops from set_tab_width/with_tab_width (0..=16, occasionally up to 300), set_style/with_style/style().template() re-set over 9 templates (tabs in literals, tab literals ending at a line break, '{'+TAB, custom keys writing tabs in one and in several writes), set/with message/prefix with 0-5 tabs, finish_with_message/abandon_with_message/reset/tick, optional final drop with ProgressFinish::WithMessage; after every op: no TAB in any terminal write, painted lines == model with tabs -> current width, message()/prefix() == expanded; non-trivial = a width change after a text with a tab was set",
+            rule: "0-14 (thorough 30) ops from set_tab_width/with_tab_width (0..=16, occasionally up to 300), set_style/with_style/style().template() re-set over 9 templates (tabs in literals, tab literals ending at a line break, '{'+TAB, custom keys writing tabs in one and in several writes), set/with message/prefix with 0-5 tabs, finish_with_message/abandon_with_message/reset/tick/println (the bar lines it repaints), optional final drop with ProgressFinish::WithMessage; after every op: no TAB in any terminal write, painted lines == model with tabs -> current width, message()/prefix() == expanded; non-trivial = a width change after a text with a tab was set",
             strategy: case_strategy,
             cases: |t| t.pick(30_000, 1_200_000),
             run: run_tabs,
             signature: no_signature,
-            essential: &["width_change_after_tab_text", "retemplate_of_cloned_style", "width_zero", "drop_with_message", "finish_message_with_tab", "configured_while_hidden_then_shown", "stored_finish_message_applied", "style_taken_from_the_bar_earlier_set_again", "expanded_text_set_again_as_plain_text"],
+            essential: &["width_change_after_tab_text", "retemplate_of_cloned_style", "width_zero", "drop_with_message", "finish_message_with_tab", "configured_while_hidden_then_shown", "stored_finish_message_applied", "style_taken_from_the_bar_earlier_set_again", "expanded_text_set_again_as_plain_text", "bar_lines_repainted_by_println"],
             workers: w,
             decode: Some(decode_tabs),
         })],
